@@ -543,6 +543,7 @@ static bool has_leading_zero_cell(const std::string &doc) {
 static std::string classify(const Fmt &f, const std::string &doc) {
   if (f.kind == "csv") {
     if (f.dt != "f32" && has_leading_zero_cell(doc)) return "csv-int-base0";
+    if (doc.size() >= 3 && doc.compare(doc.size() - 3, 3, "\xEF\xBB\xBF") == 0) return "csv-bom-last-bytes-of-block";
     if (has_blank_last_cell(doc, static_cast<char>(f.delim))) return "csv-blank-cell-reads-next-line";
     return "none";
   }
@@ -1045,6 +1046,8 @@ static std::string rand_token_line(vh::Rng &r, const std::string &kind) {
   size_t what = r.below(12);
   if (kind == "csv") {
     if (what == 0) return "";
+    if (what == 1 && r.chance(1, 2)) return "\xEF\xBB\xBF";   // a line that is nothing but a BOM
+    if (r.chance(1, 12)) l = "\xEF\xBB\xBF";
     size_t n = 1 + r.below(5);
     for (size_t k = 0; k < n; ++k) {
       if (k) l += ",";
@@ -1129,6 +1132,9 @@ static void corpus(Gen &G) {
       {"csv:32:i32:-1:-1:44", "010,8\n1,2\n"},           // F12: base 0
       {"csv:32:i64:-1:-1:44", "0x10,1\n1,2\n"},
       {"csv:32:f32:-1:-1:44", "\xEF\xBB\xBF" "1,2\n\xEF\xBB\xBF" "3,4\n\xEF\xBB" "5,6\n"},
+      {"csv:32:f32:-1:-1:44", "1,2\n\xEF\xBB\xBF"},                     // C11-F5: a BOM as the last bytes of the block
+      {"csv:32:f32:-1:-1:44", "\xEF\xBB\xBF"},
+      {"csv:32:i32:0:-1:44", "\xEF\xBB\xBF\n1,2\n\xEF\xBB\xBF\r\n\xEF\xBB\xBF" "3,4\n\xEF\xBB\xBF"},  // BOM-only lines anywhere
       {"csv:32:f32:0:1:44", "1,0.5,3,,5\n2,0.25,,4,\n"},
       {"csv:32:f32:-1:-1:44", "0,,,3\n4,5,6,7\n8,9,10,11\n"},
       {"csv:32:f32:-1:-1:44", "1,2\r\n3,4\r5,6\n\n\n7,8"},
